@@ -33,6 +33,11 @@ inductive TurnResN
   | hang
   deriving DecidableEq, Repr
 
+/-- `request_diagnostics()` on the peripheral in slot `i` (`none`: no user call). -/
+def midDiag (m : Master) : Option Nat → Master
+  | some i => (m.requestDiagnostics i).getD m
+  | none => m
+
 /-- One `transmit_telegram(now, …, HighPrioOnly::No)` and the delivery according to `d`; `mid = some i`:
 `request_diagnostics()` on the peripheral in slot `i` between the request and its reply. -/
 def JointN.turn (j : JointN) (now : Int) (mid : Option Nat) (d : Delivery) : TurnResN :=
@@ -45,9 +50,7 @@ def JointN.turn (j : JointN) (now : Int) (mid : Option Nat) (d : Delivery) : Tur
     | .panic => .panic
     | .ok bytes =>
       let exp := expectsReplyOf h
-      let m1 := match mid with
-        | some i => (m'.requestDiagnostics i).getD m'
-        | none => m'
+      let m1 := midDiag m' mid
       match d with
       | .lossReq =>
         .ok { j with m := match exp with | some a => m1.handleTimeout a | none => m1 }
